@@ -20,7 +20,10 @@ func init() {
 				"C08.range (EVERY dynamic index and slice bound in the packages that handle gossip input (node, hashgraph, peers, common, crypto, net) is PROVED within [0, len] on every acyclic path by linear entailment — Fourier–Motzkin over the path's comparison literals, loop-induction bounds, len(make(n)) = n, division / remainder by constants, phi equalities at joins — for arbitrary integer arguments; in particular the rolling caches RollingIndex.Get / GetItem / Set that are indexed by wire-supplied SyncRequest.Known values and wire event indexes. Sort callbacks (indexes supplied by package sort) are skipped and ten functions whose bound is not a linear fact are exempt by name with the reason in the evidence notes), C08.shape (a fast-forward response passes a shape validation — nil elements of Peers / PeerSets / Roots / Events, nil Core, Parents of length 2, nil signature map — before its contents are used), " +
 				"C08.dispatch (unknown command bytes / types are answered with an error, nothing is dispatched undecoded), C08.respond (a join promise is removed right after it was answered; no defer inside loops of network-reachable code). " +
 				"NOT decided: general panic-freedom, resource exhaustion by oversized inputs, data races, 'never alters committed history' (covered structurally by C02.frozen, C07, C09, C12)."},
-		Rules: []ruleFunc{c08sink, c08parse, c08const, c08bounds, c08range, c08shape, c08dispatch, c08respond, func(p *Prog, r *Report) { itxRule(p, r, "C08.itx") }},
+		Rules: []ruleFunc{c08sink, c08parse, c08const, c08bounds, c08range, c08shape, c08dispatch, c08respond, func(p *Prog, r *Report) { itxRule(p, r, "C08.itx") }, func(p *Prog, r *Report) {
+			r.Rule("C08.dedupe", 1, "a peer is added to a set at most once, by identity (id of the decoded key), not by the spelling of its key")
+			noDupRule(p, r, "C08.dedupe")
+		}},
 	})
 }
 
@@ -869,13 +872,37 @@ func c08dispatch(p *Prog, r *Report) {
 	if n == 0 {
 		r.Fail(rule, "handleCommand:dispatch", p.pos(fn.Pos()), fnName(fn), "no dispatch found")
 	}
-	// every decoded command type is one of the four requests
-	cnt := 0
-	for _, c := range callsIn(fn, func(f *types.Func) bool { return f.Name() == "Decode" }) {
-		_ = c
-		cnt++
+	// all four request types can be decoded (in place, or through a table of constructors)
+	want := map[string]bool{"SyncRequest": false, "EagerSyncRequest": false, "FastForwardRequest": false, "JoinRequest": false}
+	var scope []*ssa.Function
+	scope = append(scope, withAnon(fn)...)
+	if np := p.Pkg(NET); np != nil {
+		if initf := np.Func("init"); initf != nil {
+			scope = append(scope, withAnon(initf)...)
+		}
 	}
-	r.Check(cnt >= 4, rule, "handleCommand:four-request-types", p.pos(fn.Pos()), fnName(fn), fmt.Sprintf("%d decode sites", cnt), "fewer than four request types are decoded")
+	for _, f := range scope {
+		for _, b := range f.Blocks {
+			for _, in := range b.Instrs {
+				if al, ok := in.(*ssa.Alloc); ok {
+					if n := namedOf(al.Type()); n != nil {
+						if _, w := want[n.Obj().Name()]; w {
+							want[n.Obj().Name()] = true
+						}
+					}
+				}
+			}
+		}
+	}
+	var missing []string
+	for k, v := range want {
+		if !v {
+			missing = append(missing, k)
+		}
+	}
+	sort.Strings(missing)
+	nDec := len(callsIn(fn, func(f *types.Func) bool { return f.Name() == "Decode" }))
+	r.Check(len(missing) == 0 && nDec > 0, rule, "handleCommand:four-request-types", p.pos(fn.Pos()), fnName(fn), fmt.Sprintf("%d decode site(s); the four request types are constructed", nDec), "request types never constructed for decoding: "+strings.Join(missing, ", "))
 }
 
 func c08respond(p *Prog, r *Report) {
